@@ -150,6 +150,7 @@ class ConnectionPool(Entity):
         self._active_connections: dict[int, Connection] = {}
         self._next_connection_id = 0
         self._total_connections = 0
+        self._pending_connections = 0  # set-ups in flight (not yet counted in total)
 
         # Waiters: list of (waiter_id, request_time, callback)
         self._waiters: deque[tuple[int, Instant, Callable[[Connection | None], None]]] = deque()
@@ -280,7 +281,7 @@ class ConnectionPool(Entity):
             return connection
 
         # Can we create a new connection?
-        if self._total_connections < self._max_connections:
+        if self._total_connections + self._pending_connections < self._max_connections:
             connection = yield from self._create_connection()
             self._activate_connection(connection)
             logger.debug(
@@ -471,7 +472,7 @@ class ConnectionPool(Entity):
         """Create minimum connections."""
         events = []
 
-        while self._total_connections < self._min_connections:
+        while self._total_connections + self._pending_connections < self._min_connections:
             connection = yield from self._create_connection()
             self._idle_connections.append(connection)
 
@@ -548,8 +549,14 @@ class ConnectionPool(Entity):
     def _create_connection(self) -> Generator[float, None, Connection]:
         """Create a new connection to the target."""
         # Simulate connection establishment time
+        # Reserve the slot while the set-up is running, so that acquirers
+        # arriving in the meantime cannot exceed max_connections.
         latency = self._connection_latency.get_latency(self.now)
-        yield latency.to_seconds()
+        self._pending_connections += 1
+        try:
+            yield latency.to_seconds()
+        finally:
+            self._pending_connections -= 1
 
         self._next_connection_id += 1
         connection = Connection(
